@@ -424,7 +424,11 @@ def b2(pid, tier, seed, wd, rep):
                 hi = owner[rej - 1]
                 sc, lines = pending[hi]
                 line = flat[rej - 1]
-                props = B2_OWNER.get(line["ev"], AGENT_PROPS)
+                props = list(B2_OWNER.get(line["ev"], AGENT_PROPS))
+                if line["ev"] in ("poll", "send_req") and (sc.get("us") or any("back" in st for st in sc["steps"])):
+                    # histories with sub-millisecond instants / instants older than an earlier poll exist to expose an
+                    # instant of one call leaking into another transaction's schedule (last clause of C20)
+                    props.append("C20")
                 stats["rejected"] += 1
                 what = "%s: recorded run is not a behaviour of the specification at %s" % (sc["id"], json.dumps(line))
                 if pid in props or (pid == "C20" and False):
